@@ -378,6 +378,98 @@ def rule_7(ctx):
     ctx.floor(87, 'loaded-workbook cells')
 
 
+def _upstream_reader():
+    """(path, parser parameters [(name, default expr or None)], {parameter: argument expression}) of the installed openpyxl's
+    WorksheetReader.__init__ -> WorkSheetParser(...) call, read from its source file (nothing of openpyxl is imported)."""
+    import os
+    from xlsa.guards import _site_dirs
+    for d in _site_dirs():
+        path = os.path.join(d, 'openpyxl', 'worksheet', '_reader.py')
+        if os.path.exists(path):
+            break
+    else:
+        raise Unmodelled('installed openpyxl/worksheet/_reader.py not found')
+    tree = ast.parse(open(path, encoding='utf-8').read())
+    classes = {n.name: n for n in tree.body if isinstance(n, ast.ClassDef)}
+    if 'WorksheetReader' not in classes or 'WorkSheetParser' not in classes:
+        raise Unmodelled('openpyxl _reader.py has no WorksheetReader / WorkSheetParser')
+
+    def init(cls):
+        for n in cls.body:
+            if isinstance(n, ast.FunctionDef) and n.name == '__init__':
+                return n
+        raise Unmodelled(f'openpyxl {cls.name} has no __init__')
+    pinit = init(classes['WorkSheetParser'])
+    args = pinit.args.args[1:]
+    defaults = [None] * (len(args) - len(pinit.args.defaults)) + list(pinit.args.defaults)
+    params = [(a.arg, dflt) for a, dflt in zip(args, defaults)]
+    rinit = init(classes['WorksheetReader'])
+    calls = [c for c in ast.walk(rinit) if isinstance(c, ast.Call) and isinstance(c.func, ast.Name) and c.func.id == 'WorkSheetParser']
+    if len(calls) != 1:
+        raise Unmodelled('openpyxl WorksheetReader.__init__ does not construct exactly one WorkSheetParser')
+    bound = {}
+    for (name, _), a in zip(params, calls[0].args):
+        bound[name] = a
+    for k in calls[0].keywords:
+        bound[k.arg] = k.value
+    return path, params, [a.arg for a in rinit.args.args[1:]], bound
+
+
+def _chain(node, env):
+    """Value of a name / attribute chain over nested dicts of tokens (all the upstream call uses)."""
+    if isinstance(node, ast.Name) and node.id in env:
+        return env[node.id]
+    if isinstance(node, ast.Attribute):
+        base = _chain(node.value, env)
+        if isinstance(base, dict) and node.attr in base:
+            return base[node.attr]
+    raise Unmodelled(f'openpyxl passes {ast.unparse(node)}: not a chain over the constructor arguments')
+
+
+def rule_8(ctx):
+    """Sibling implementations: the package replaces openpyxl's WorksheetReader by a subclass whose constructor builds the
+    package's WorkSheetParser. Whatever openpyxl's own constructor (read from the installed source) hands to its parser - the
+    source, the shared strings, data_only, the workbook's EPOCH (1900 / 1904 date system), the date and timedelta formats,
+    rich_text - the replacement must hand over too, parameter by parameter; and it must take the same constructor arguments."""
+    pm = ctx.mod('patch')
+    fn = pm.func('WorksheetReader.__init__')
+    path, params, reader_params, bound = _upstream_reader()
+    mine = func_params(fn)[1:]
+    ctx.expect(mine == reader_params, fn, 'constructor parameters of the replacement reader',
+               f'patch.WorksheetReader.__init__ takes {mine}, openpyxl calls its WorksheetReader with {reader_params}')
+    tokens = {'ws': {'parent': {'epoch': 'EPOCH-OF-THE-WORKBOOK', '_date_formats': 'DATE-FORMATS', '_timedelta_formats': 'TIMEDELTA-FORMATS'}},
+              'xml_source': 'XML-SOURCE', 'shared_strings': 'SHARED-STRINGS', 'data_only': 'DATA-ONLY', 'rich_text': 'RICH-TEXT'}
+    want = {}
+    for name, dflt in params:
+        want[name] = _chain(bound[name], tokens) if name in bound else ('<default>', ast.unparse(dflt) if dflt is not None else None)
+    seen = []
+
+    def parser(*a, **k):
+        seen.append((a, k))
+        return Rec(cls='pkg:patch:WorkSheetParser')
+    ws = Rec(parent=Rec(epoch='EPOCH-OF-THE-WORKBOOK', _date_formats='DATE-FORMATS', _timedelta_formats='TIMEDELTA-FORMATS'))
+    env = dict(zip(func_params(fn), [Rec(cls='pkg:patch:WorksheetReader'), ws, 'XML-SOURCE', 'SHARED-STRINGS', 'DATA-ONLY', 'RICH-TEXT']))
+    it = Interp(ctx.a, pm, env, inline_pkg=True, scope_fn=fn, self_class='pkg:patch:WorksheetReader', call_models={'pkg:patch:WorkSheetParser': parser})
+    out = it.run(fn.body)
+    if out.end not in ('return', 'fallthrough', 'end') and out.end == 'raise':
+        raise Unmodelled(f'patch.WorksheetReader.__init__ ends in {out.end} {out.value!r}')
+    if len(seen) != 1:
+        raise Unmodelled(f'patch.WorksheetReader.__init__ constructs {len(seen)} parsers')
+    a, k = seen[0]
+    got = {}
+    for (name, dflt), v in zip(params, a):
+        got[name] = v
+    got.update(k)
+    for name, dflt in params:
+        have = got.get(name, ('<default>', ast.unparse(dflt) if dflt is not None else None))
+        ctx.expect(have == want[name], fn, f'the parser gets {name} as openpyxl\'s own reader passes it',
+                   f'openpyxl ({path.split("site-packages/")[-1]}) constructs its parser with {name} = {want[name]!r}; the replacement passes {have!r}: '
+                   'the replacement reader must read a workbook the way the reader it replaces does (date system, formats, shared strings)')
+    extra = sorted(set(got) - {n for n, _ in params})
+    ctx.expect(not extra, fn, 'no parameter the parser does not have', f'the replacement passes {extra} which openpyxl\'s parser does not take')
+    ctx.floor(len(params) + 2, 'parser parameters')
+
+
 RULES = [
     ('C11.1', 'ignored sheets contribute no cells', rule_1),
     ('C11.2', 'defined names honour ignore_sheets', rule_2),
@@ -386,4 +478,5 @@ RULES = [
     ('C11.5', 'build order of parse_archive', rule_5),
     ('C11.6', 'range targets of defined names are unquoted by the address resolvers (shared with C03.7)', rule_6),
     ('C11.7', 'reference workbook loaded through the reader path: cached results, evaluation reproduces them', rule_7),
+    ('C11.8', 'the replacement openpyxl reader hands its parser what openpyxl\'s own reader hands over (sibling agreement)', rule_8),
 ]
